@@ -89,14 +89,44 @@ func TestZZReplay(t *testing.T) {
 `, harnessPkgName(spec.Pkg), spec.Func)
 }
 
+// curTier is the tier of the running check; replayParams (set when replaying a saved
+// counterexample) takes precedence.
+var (
+	curTier      = "quick"
+	replayParams map[string]int
+)
+
+// nativeParams are the harness parameters of the symbolic run that produced a model: the
+// native run must use the same bounds, or it plays a different scenario.
+func nativeParams(spec HarnessSpec) map[string]int {
+	params := map[string]int{}
+	if replayParams != nil {
+		for k, v := range replayParams {
+			params[k] = v
+		}
+		return params
+	}
+	for k, v := range spec.Params {
+		params[k] = v
+	}
+	if curTier == "thorough" {
+		for k, v := range spec.TParams {
+			params[k] = v
+		}
+	}
+	for k, v := range cliParams {
+		if !strings.HasPrefix(k, "__") {
+			params[k] = v
+		}
+	}
+	return params
+}
+
 // replayNative runs the harness natively against the real build with the
 // model's values and reports whether the same violation shows.
 func replayNative(ld *Loaded, spec HarnessSpec, v Violation) (bool, string, string) {
 	tag := fmt.Sprintf("%s_%s_%x", spec.Prop, spec.Func, hashString(v.sig()))
-	params := map[string]int{}
-	for k, val := range spec.Params {
-		params[k] = val
-	}
+	params := nativeParams(spec)
 	mb, _ := json.Marshal(map[string]any{"Model": v.Model, "Params": params, "Trace": v.Trace})
 	dir := filepath.Join(verifDir, "replays")
 	os.MkdirAll(dir, 0o755)
@@ -192,6 +222,7 @@ func cmdReplay(path string) int {
 		Tag       string
 		Pkg       string
 		Violation Violation
+		Params    map[string]int
 	}
 	if err := json.Unmarshal(b, &r); err != nil {
 		fmt.Fprintln(os.Stderr, err)
@@ -207,6 +238,7 @@ func cmdReplay(path string) int {
 		fmt.Fprintln(os.Stderr, "unknown harness", r.Harness)
 		return 2
 	}
+	replayParams = r.Params
 	ok, out, _ := replayNative(nil, *spec, r.Violation)
 	fmt.Println(out)
 	if ok {
@@ -222,10 +254,7 @@ func cmdReplay(path string) int {
 // assertion or panic, and for traced harnesses start and finish the same probes.
 func validateSample(spec HarnessSpec, smp PathSample, n int) (bool, string) {
 	tag := fmt.Sprintf("%s_%s_sample%d", spec.Prop, strings.NewReplacer("[", "_", "]", "", "=", "", ",", "_").Replace(spec.name()), n)
-	params := map[string]int{}
-	for k, val := range spec.Params {
-		params[k] = val
-	}
+	params := nativeParams(spec)
 	mb, _ := json.Marshal(map[string]any{"Model": smp.Model, "Params": params, "Trace": smp.Trace})
 	dir := filepath.Join(verifDir, "replays")
 	os.MkdirAll(dir, 0o755)
